@@ -195,8 +195,9 @@ impl<'a> Context<'a> {
         let (format_string_index, variadic_access_pattern) = self
             .stubbed_variadic_symbols
             .get(extern_symbol.name.as_str())?;
-        let format_string_address =
-            state.eval_parameter_arg(&extern_symbol.parameters[*format_string_index]); // TODO: potential problem: What if the address is now an abstract ID? And how do we handle format strings in writeable memory anyway?
+        // Ghidra may not be supplying (complete) parameter information for the symbol.
+        let format_string_arg = extern_symbol.parameters.get(*format_string_index)?;
+        let format_string_address = state.eval_parameter_arg(format_string_arg); // TODO: potential problem: What if the address is now an abstract ID? And how do we handle format strings in writeable memory anyway?
         let format_string_address = state.substitute_global_mem_address(
             format_string_address,
             &self.project.runtime_memory_image,
